@@ -1,11 +1,14 @@
 import NanoVerif.Model.Proto
 import NanoVerif.Model.Pool
+import NanoVerif.Model.PoolMon
 /-!
   driver family `pool` (C17): one scenario per line.
 
   `pool run <size-asked> <delay‰> <delay-max-us> <spurious‰> <seed> <predestroy-us> <type> <S> {<K> {call}} size <n> trace <N> {tid kind a b}`
   with `call` = `m <elements> <chunk> <raise> <work-us> <nthrow> {pos}` | `e <raise> <work-us> <throws> <waitmode>`.
-  The answer is the schedule-independent verdict of `Pool.checkTrace` on the recorded trace.
+  (`size <n>` may be followed by `max <max_size()>`; `<size-asked>` = 1000: default constructor; `<type>` = integer type + 10 · directed mode.)
+  The answer is the schedule-independent verdict of `Pool.checkTrace` on the recorded trace, of the independent monitors
+  `Pool.monitor` (`mon=`) and of the pool-size model `Pool.sizeFor` (`szok=`).
 -/
 namespace NanoVerif.Driver.Pool
 open NanoVerif.Proto NanoVerif.Pool
@@ -49,9 +52,15 @@ def showVerdict (v : Verdict) : String :=
   s!"ok size={v.size} calls={v.calls} queued={v.queued} execs={v.execs} dropped={v.dropped} maxtnum={maxt} " ++
   s!"workers={v.tnums.length} res={res} path={path} lock={lock} quiet={quiet}{why}"
 
+def showMon (v : MonVerdict) : String :=
+  match v.failure with
+  | none => "mon=1"
+  | some (i, .lock m) => s!"mon=0 @{i} lock: {m}"
+  | some (i, .path m) => s!"mon=0 @{i} {m}"
+
 def handle : Toks → Option String
   | "run" :: ts => do
-    let (_asked, ts) ← pNat ts
+    let (asked, ts) ← pNat ts
     let (_dprob, ts) ← pNat ts
     let (_dmax, ts) ← pNat ts
     let (_spur, ts) ← pNat ts
@@ -64,11 +73,18 @@ def handle : Toks → Option String
     | ["size", _, "notrace"] => pure "skip"
     | "size" :: ts => do
       let (size, ts) ← pNat ts
+      let (szok, ts) ← (match ts with
+        | "max" :: ts => do
+          let (mx, ts) ← pNat ts
+          -- `max_size()` = `max(1, hardware_concurrency())`: the model is evaluated on the value the library reports
+          pure (if size = sizeFor asked mx ∧ 1 ≤ mx then "1" else "0", ts)
+        | ts => pure ("1", ts))
       match ts with
+      | ["notrace"] => pure "skip"
       | "trace" :: ts => do
         let (trace, ts) ← pList pRaw ts
         guard ts.isEmpty
-        pure (showVerdict (checkTrace size calls trace))
+        pure (showVerdict (checkTrace size calls trace) ++ " " ++ showMon (monitor size calls trace) ++ s!" szok={szok}")
       | _ => none
     | _ => none
   | _ => none
